@@ -9,6 +9,14 @@ package document
 
 func ZZH_C05_SaveUnderFaults() {
 	d := zzhSomeDoc()
+	if zzvBool() {
+		// parts carried over from an opened package: arbitrary content (possibly empty), and the
+		// zero-length entry a directory record of the source archive becomes
+		d.parts["customXml/item1.xml"] = []byte(zzvString())
+		if zzvBool() {
+			d.parts["word/"] = []byte{}
+		}
+	}
 	kind := zzvChoice(4)
 	path := zzvFaultPath(kind)
 	err := d.Save(path)
